@@ -71,10 +71,11 @@ def run(ctx):
     pp = ctx.path("publish.ndjson")
     vlib.run_bin("fault_driver", ["publish", "--out", pp], timeout=600)
     ev += vlib.read_ndjson(pp)
-    runs = api_runs(ev)
-    runs = [r for r in runs if any(e["ev"] != "summary" for e in r)]
+    pairs = [(a, r) for a, r in zip(api_runs(ev), vlib.split_runs(ev)) if any(e["ev"] != "summary" for e in a)]
+    runs = [a for a, _ in pairs]
+    raws = [r for _, r in pairs]     # every storage operation and hook event of the run: kept next to a rejected run
     fired = sum(1 for r in runs if nontrivial(r))
-    n = tracecheck.validate_runs(ctx, runs, "faults", "FaultTrace", "FaultTrace.cfg", key=key, nontrivial=nontrivial, timeout=600, heap="6g", max_rounds=15)
+    n = tracecheck.validate_runs(ctx, runs, "faults", "FaultTrace", "FaultTrace.cfg", key=key, nontrivial=nontrivial, timeout=600, heap="6g", max_rounds=15, raw=raws)
     ctx.cov["traces_validated_against_impl"] += n
     ctx.cov["fault_runs"] = len(runs)
     ctx.cov["fault_runs_where_the_fault_fired"] = fired
